@@ -47,23 +47,48 @@ def cop(o):
     if k in ("ClusterSubst", "AddEdge", "Collapse", "AddSubstitute"): return "(%s %s %s)" % (k, civ(tiv(o[1])), civ(tiv(o[2])))
     if k == "SimplifyMap": return "SimplifyMap"
     if k == "Snap": return "(Snap %s %s %s %s)" % (civs_(o[1]), cpairs(o[2]), civs_(o[3]), cpairs(o[4]))
+    if k == "Touch": return "(Touch %s)" % civ(tiv(o[1]))
     return "Raw"
 def creads(reads): return clist(reads, lambda r: "(%s, %s)" % (cbool(r[0]), civs_(r[1])))
 
 
 # ------------------------------------------------------------------ logged region -> Coq cases
+def plain_ops(ops):
+    """the mutator steps and snapshots: logged decisions (calls of collapse_vertex_set) are not steps of the abstract system"""
+    return [o for o in ops if o[0] not in ("Cvs", "Iso")]
+
+def cxev(o):
+    if o[0] == "Cvs": return "(XCvs %s %s %s %s %s)" % (cbool(o[1]), civ(tiv(o[2])), civs_(o[3]), czs(o[4]) if o[4] else "(@nil Z)", cpairs(o[5]))
+    if o[0] == "Iso": return "(XIso %s %s %s)" % (civs_(o[1]), czs(o[2]) if o[2] else "(@nil Z)", cpairs(o[3]))
+    return "(XOp %s)" % cop(o)
+
+def cpasses(g, main_ops):
+    """(gparams, events after the clustering prefix, clustered_introns after simplify) for GraphPasses.passes_ok"""
+    import fractions
+    gp = g["gparams"]; fr = fractions.Fraction(gp["ratio"])
+    k = next((i for i, o in enumerate(main_ops) if o[0] == "Snap"), len(main_ops))
+    return "((mkGP %s %s %s %s %s), %s, %s)" % (cz(gp["dist"]), cz(fr.numerator), cz(fr.denominator), cz(gp["iso"]), civs_(g["known"]), clist(main_ops[k:], cxev), ccounts(g["counts_end"]))
+
+def cfill(g, paths, fl, pp):
+    """(finished graph, parameters, reads as IntronPathStorage.fill sees them, path_storage.paths with counts, path_storage.fl_paths) for GraphPaths.fill_trace_ok"""
+    tout = [t for t in g["terminal"] if t[1][0] in (-10, -11)]; tin = [t for t in g["terminal"] if t[1][0] in (-20, -21)]
+    xr = clist(g["xreads"], lambda r: "(mkXR %s %s %s %s %s %s)" % (cbool(r[0]), civs_(r[1]), cz(r[2]), cz(r[3]), cbool(r[4]), cbool(r[5])))
+    return "((mkF %s %s %s %s), (mkPP %s %s %s), %s, %s, %s)" % (cpairs(g["out_edges"]), cpairs(g["inc_edges"]), cpairs(tout), cpairs(tin), cz(pp["delta"]), cz(pp["apa_delta"]), cbool(pp["requires_polya"]), xr,
+                                                                 clist(paths, lambda e: "(%s, %s)" % (civs_(e[0]), cz(e[1]))), cchains(fl))
+
 def split_touches(ops):
-    """the trailing part of a logged sequence (attach_terminal_positions) may re-create zero-count keys in clustered_introns by defaultdict look-ups:
-    (steps of the abstract system, touched introns, final snapshot).  A look-up anywhere else stays in the sequence and is rejected as a raw step."""
-    k = next((i for i, o in enumerate(ops) if o[0] == "Touch"), len(ops))
-    tail = ops[k:]
-    if any(o[0] not in ("Touch", "Snap") for o in tail): return ops, [], next(o for o in reversed(ops) if o[0] == "Snap")
+    """defaultdict look-ups of clustered_introns (attach_terminal_positions, collapse_vertex_set on a stale neighbour set) re-create removed introns as zero-count
+    keys: they are steps of their own (Touch); returns (all steps, the re-created keys still present at the end, final snapshot)"""
     final = next(o for o in reversed(ops) if o[0] == "Snap")
-    return ops[:k], [o[1] for o in tail if o[0] == "Touch"], final
+    fv = set(tuple(v) for v in final[1]); touched = []
+    for o in ops:
+        if o[0] == "Touch" and tuple(o[1]) in fv and o[1] not in touched: touched.append(o[1])
+    return ops, touched, final
 
 def region_case(rec, replay):
     g = rec["graph"]
-    ops, touched, final = split_touches(g["ops"])
+    all_main, touched, final = split_touches(g["ops"])
+    ops = plain_ops(all_main)
     fl = rec.get("fl") or {}
     refs = [c for _, c in fl.get("ref_chains", [])]
     known = [kp for kp, _ in fl.get("known_paths", [])]
@@ -74,7 +99,8 @@ def region_case(rec, replay):
         for ri in d["read_introns"]: threads.append((ri, ip))
     term = "(mkR %s %s (%s, %s, %s) %s %s %s %s)" % (creads(g["reads"]), clist(ops, cop), civs_(final[1]), cpairs(final[2]), civs_(final[3]), cchains(refs), cchains(known),
                                                      clist(threads, lambda t: "(%s, %s)" % (civs_(t[0]), civs_(t[1]))), civs_(touched))
-    kinds = collections.Counter(o[0] for o in ops); kinds["Touch"] = len(touched)
+    term = "(%s, %s, %s, %s, %s, %s)" % (civs_(g["known"]), cz(g["delta"]), cz(g["min_count"]), term, cpasses(g, all_main), cfill(g, rec["paths"], rec["fl_paths"], rec["pparams"]))
+    kinds = collections.Counter(o[0] for o in all_main); kinds["Touch"] = len(touched)
     obj = dict(replay, region=rec["region"], chr=rec["chr"], seq=rec["seq"], n_reads=len(g["reads"]), ops=dict(kinds), n_vertices=len(final[1]), n_threads=len(threads), touched=touched,
                raw_ops=[o for o in ops if o[0] == "Raw"][:5], late_ops=rec.get("late_ops", [])[:5], nontrivial=kinds.get("Collapse", 0) + kinds.get("Discard", 0) + kinds.get("ClusterSubst", 0) > 0)
     return term, obj
@@ -146,7 +172,12 @@ def store_case(rec, replay, mnc):
     term = "(%s, %s, %s)" % (clist(ops), clist(final, lambda m: "(%s, %s)" % (cz(m[0]), cbool(m[1]))), clist(table, lambda e: "(%s, %s)" % (cz(e[0]), cz(e[1]))))
     return term, dict(replay, region=rec["region"], chr=rec["chr"], n_ops=len(ops), final=rec["final_storage"], n_rows=len(table), nontrivial=any(e[0] == "Del" for e in rec["store"]))
 
-PRE_REGION = PRE + "Definition check := region_check.\nDefinition prop := region_prop.\n"
+FILL_T = "(fgraph * pparams * list xread * list (list iv * Z) * list (list iv))"
+PRE_REGION = "From IQ Require Import Exons Graph GraphCluster GraphPasses GraphPaths.\nOpen Scope Z_scope.\n" + """Definition T := (list iv * Z * Z * region * (gparams * list xevent * list (iv * Z)) * %s)%%type.
+Definition check (c : T) : bool := let '(known, delta, mnc, r, (P, evs, fc), (G, PP, xr, paths, fl)) := c in
+  region_check r && cluster_trace_ok known delta mnc r && passes_ok P delta mnc (r_reads r) evs fc && fill_trace_ok (r_reads r) (r_ops r) G PP xr paths fl.
+Definition prop (c : T) : bool := let '(known, delta, mnc, r, x, y) := c in region_prop r.
+""" % FILL_T
 PRE_DECISION = PRE + "Definition check := decision_check.\nDefinition prop := decision_prop.\n"
 PRE_RDECISION = PRE + "Definition check := rdecisions_check.\nDefinition prop := rdecisions_prop.\n"
 PRE_GROUP = PRE + "Definition T := (octx * list omodel)%type.\nDefinition check (c : T) : bool := true.\nDefinition prop (c : T) : bool := novel_ok_all (fst c) (snd c).\n"
@@ -408,7 +439,7 @@ def analyse(ctx, results, quick):
         stats["spliced_novel_models"] += sum(1 for m in o["novel"].values() if len(m["exons"]) > 1)
         if o["annotation_free"]: stats["annotation_free_runs"] += 1
     # ---- trace validation
-    mism, viol = ctx.corr("pipeline:graph_traces", PRE_REGION, rcases, shard=10, ctype="region", nontrivial=lambda o: o["nontrivial"])
+    mism, viol = ctx.corr("pipeline:graph_traces", PRE_REGION, rcases, shard=10, ctype="T", nontrivial=lambda o: o["nontrivial"])
     ctx.corr_report("pipeline:graph_traces", mism, viol, what="logged IntronGraph state violates vertices-are-read-introns / substitutes-are-vertices / paths-through-vertices")
     mism, viol = ctx.corr("pipeline:fl_decisions", PRE_RDECISION, dcases, shard=10, ctype="rdecisions", nontrivial=lambda o: o["n_novel"] > 0)
     if mism or viol:
@@ -569,7 +600,8 @@ def run_decide_unit(ctx, quick):
 def fake_params(rnd):
     return types.SimpleNamespace(delta=rnd.choice([0, 4, 6]), min_novel_intron_count=rnd.choice([0, 1, 2]), graph_clustering_distance=rnd.choice([5, 10, 20]), graph_clustering_ratio=rnd.choice([0.3, 0.5]),
                                  min_novel_isolated_intron_abs=rnd.choice([1, 2, 3, 5]), min_novel_isolated_intron_rel=0.02, singleton_adjacent_cov=rnd.choice([2, 3, 10]), terminal_position_abs=1,
-                                 terminal_position_rel=rnd.choice([0.05, 0.1]), terminal_internal_position_rel=rnd.choice([0.05, 0.1]), apa_delta=rnd.choice([10, 50]), debug=False)
+                                 terminal_position_rel=rnd.choice([0.05, 0.1]), terminal_internal_position_rel=rnd.choice([0.05, 0.1]), apa_delta=rnd.choice([10, 50]), debug=False,
+                                 requires_polya_for_construction=rnd.random() < .5)
 
 def fake_read(rid, exons, strand, polya, mm=False):
     introns = [(a[1] + 1, b[0] - 1) for a, b in zip(exons, exons[1:])]
@@ -631,7 +663,11 @@ def real_graph(params, reads, iso):
     for t, ins in introns.items():
         p = pp.thread_introns(ins)
         if p: kn.append(p)
-    return dict(graph=g._c04_graph, threads=threads, known_paths=kn, refs=list(introns.values()), late=g._c04_late.ops)
+    ps = gb.IntronPathStorage(params, pp); ps.fill(reads)
+    cut = sum(1 for p in ps.paths for a, b in zip(p, p[1:]) if a[0] >= 0 and b[0] >= 0 and b not in g.outgoing_edges.get(a, ()))
+    return dict(graph=g._c04_graph, threads=threads, known_paths=kn, refs=list(introns.values()), late=g._c04_late.ops,
+                paths=[[[list(map(int, v)) for v in p], int(n)] for p, n in ps.paths.items()], fl_paths=[[list(map(int, v)) for v in p] for p in ps.fl_paths],
+                pparams=dict(delta=params.delta, apa_delta=params.apa_delta, requires_polya=bool(params.requires_polya_for_construction)), path_steps_without_edge=cut)
 
 def run_graph_unit(ctx, quick):
     rnd = section_rnd(ctx, "graph")
@@ -641,16 +677,17 @@ def run_graph_unit(ctx, quick):
             r = with_timeout(real_graph, params, reads, iso, seconds=20)
         except ImplTimeout:
             ctx.violation(None, "IntronGraph construction does not terminate", dict(origin=origin, reads=[(x.corrected_exons, x.multimapper) for x in reads])); return
-        g = r["graph"]; ops, touched, final = split_touches(g["ops"])
+        g = r["graph"]; all_main, touched, final = split_touches(g["ops"]); ops = plain_ops(all_main)
         thr = [t for t in r["threads"] if t[1] is not None]
         term = "(mkR %s %s (%s, %s, %s) %s %s %s %s)" % (creads(g["reads"]), clist(ops, cop), civs_(final[1]), cpairs(final[2]), civs_(final[3]), cchains(r["refs"]), cchains(r["known_paths"]),
                                                          clist(thr, lambda t: "(%s, %s)" % (civs_(t[0]), civs_(t[1]))), civs_(touched))
         stats["Touch"] += len(touched)
         # threads the implementation refused (a discarded intron) must be refused by the model as well: appended as a separate list
         refused = [t[0] for t in r["threads"] if t[1] is None]
-        kinds = collections.Counter(o[0] for o in ops)
+        kinds = collections.Counter(o[0] for o in all_main)
         for k_, v_ in kinds.items(): stats[k_] += v_
-        cases.append(("(%s, %s)" % (term, cchains(refused)), dict(origin=origin, params={k_: v_ for k_, v_ in vars(params).items()}, reads=[(x.corrected_exons, x.multimapper, x.strand) for x in reads], isoforms=iso,
+        stats["path_steps_without_edge"] += r["path_steps_without_edge"]; stats["full_length_paths"] += len(r["fl_paths"])
+        cases.append(("(%s, %s, %s, %s, %s, %s, %s)" % (civs_(g["known"]), cz(g["delta"]), cz(g["min_count"]), term, cchains(refused), cpasses(g, all_main), cfill(g, r["paths"], r["fl_paths"], r["pparams"])), dict(origin=origin, params={k_: v_ for k_, v_ in vars(params).items()}, reads=[(x.corrected_exons, x.multimapper, x.strand) for x in reads], isoforms=iso,
                                                                   ops=[o for o in ops if o[0] != "Snap"][:60], final=final[1:4], nontrivial=kinds.get("Collapse", 0) + kinds.get("Discard", 0) + kinds.get("ClusterSubst", 0) + kinds.get("ClusterDiscard", 0) > 0)))
     # small exhaustive family: three similar introns upstream of a common one, every count vector in 0..2, every known subset of two of them
     a, b, c_ = (1101, 1200), (1102, 1200), (1104, 1203)
@@ -663,19 +700,20 @@ def run_graph_unit(ctx, quick):
                         k += 1; reads.append(fake_read("e%d" % k, [(1000, iv_[0] - 1), (iv_[1] + 1, 1300), (1401, 1500)], "+", True))
                 if not reads: continue
                 P_ = types.SimpleNamespace(delta=4, min_novel_intron_count=mnc, graph_clustering_distance=10, graph_clustering_ratio=0.5, min_novel_isolated_intron_abs=2, min_novel_isolated_intron_rel=0.02,
-                                           singleton_adjacent_cov=3, terminal_position_abs=1, terminal_position_rel=0.05, terminal_internal_position_rel=0.05, apa_delta=50, debug=False)
+                                           singleton_adjacent_cov=3, terminal_position_abs=1, terminal_position_rel=0.05, terminal_internal_position_rel=0.05, apa_delta=50, debug=False, requires_polya_for_construction=False)
                 iso = {"K": [(1000, i_[0] - 1) for i_ in known[:1]] + [(known[0][1] + 1, 1300)]} if known else {}
                 one(P_, reads, iso, "exhaustive-similar-introns")
     for _ in range(400 if quick else 4000):
         reads, iso = gen_locus(rnd, small=rnd.random() < .3)
         if not reads: continue
         one(fake_params(rnd), reads, iso, "random-locus")
-    pre = PRE + """Definition T := (region * list (list iv))%type.
+    pre = PRE_CL.replace("GraphCluster.", "GraphCluster GraphPasses GraphPaths.") + """Definition T := (list iv * Z * Z * region * list (list iv) * (gparams * list xevent * list (iv * Z)) * %s)%%type.
 Definition refused_ok (r : region) (l : list (list iv)) : bool :=
   match run (init (r_reads r)) (r_ops r) with Some s => forallb (fun c => match thread s c with None => true | Some _ => false end) l | None => false end.
-Definition check (c : T) : bool := region_check (fst c) && refused_ok (fst c) (snd c).
-Definition prop (c : T) : bool := region_prop (fst c).
-"""
+Definition check (c : T) : bool := let '(known, delta, mnc, r, refused, (P, evs, fc), (G, PP, xr, paths, fl)) := c in
+  region_check r && refused_ok r refused && cluster_trace_ok known delta mnc r && passes_ok P delta mnc (r_reads r) evs fc && fill_trace_ok (r_reads r) (r_ops r) G PP xr paths fl.
+Definition prop (c : T) : bool := let '(known, delta, mnc, r, refused, x, y) := c in region_prop r.
+""" % FILL_T
     ctx.rule("graph_system: the REAL IntronGraph.__init__ (collect, cluster, construct, clean_tips_and_bulges, remove_singleton_dead_ends, remove_isolates, simplify_correction_map, attach_terminal_positions) and "
              "the REAL IntronPathProcessor.thread_introns on generated loci (fake read assignments: exon grids with junctions jittered within delta / within the clustering distance / far, coverage 1-6, "
              "multimappers, polyA on either strand, 0-2 annotated isoforms, parameters drawn from the strategy table) plus an exhaustive family of three similar introns with every count vector in 0..2; the same "
@@ -683,6 +721,142 @@ Definition prop (c : T) : bool := region_prop (fst c).
     m, v = ctx.corr("graph_system", pre, cases, shard=40, ctype="T", nontrivial=lambda o: o["nontrivial"])
     ctx.corr_report("graph_system", m, v)
     ctx.notes.append("graph_system: steps validated: %s" % dict(stats))
+
+
+# ------------------------------------------------------------------ collect_introns / cluster_introns as a function of the multiset of collected introns
+PRE_CL = "From IQ Require Import Exons Graph GraphCluster.\nOpen Scope Z_scope.\n"
+
+def ccounts(l): return clist(l, lambda e: "(%s, %s)" % (civ(tiv(e[0])), cz(e[1])))
+
+def run_cluster_unit(ctx, quick):
+    import c04_wrapper as W
+    from src import intron_graph as ig
+    W.install_graph()
+    rnd = section_rnd(ctx, "cluster")
+    cases = []
+    def real_cluster(known, delta, mnc, items):
+        """items: list of (intron, count) in dict insertion order -> (vertices with counts, map, discarded in order, ops)"""
+        gi = types.SimpleNamespace(intron_profiles=types.SimpleNamespace(features=list(known)))
+        c = ig.IntronCollector(gi, delta)
+        d = collections.defaultdict(int)
+        for i, n in items: d[i] = n
+        c.cluster_introns(d, mnc)
+        ops = list(c._c04.ops)
+        return list(c.clustered_introns.items()), list(c.intron_correction_map.items()), [tuple(o[1]) for o in ops if o[0] == "ClusterDiscard"], ops, c
+    def one(known, delta, mnc, items, origin, reads=None):
+        if reads is not None:
+            gi = types.SimpleNamespace(intron_profiles=types.SimpleNamespace(features=list(known)))
+            items = list(ig.IntronCollector(gi, delta).collect_introns(reads).items())
+        V, M, D, ops, _ = real_cluster(known, delta, mnc, items)
+        rterm = "(Some %s)" % creads([(bool(r.multimapper), r.corrected_introns) for r in reads]) if reads is not None else "None"
+        term = "(%s, %s, %s, %s, %s, (%s, %s, %s, %s))" % (civs_(known), cz(delta), cz(mnc), rterm, ccounts(items), ccounts(V), cpairs(M), civs_(D), clist(ops, cop))
+        cases.append((term, dict(origin=origin, known=list(known), delta=delta, min_count=mnc, all_introns_in_dict_order=items, impl=dict(vertices=V, map=M, discarded=D),
+                                 reads=[(r.corrected_introns, r.multimapper) for r in reads] if reads is not None else None, nontrivial=bool(M) or bool(D))))
+    # exhaustive: five introns (three mutually close, one close to only one of them, one far), every count vector over {absent, 1, 2, 10, 100}
+    U = [(10, 30), (11, 30), (12, 31), (14, 33), (40, 60)]
+    for counts in itertools.product((0, 1, 2, 10, 100), repeat=len(U)):
+        items = [(i, n) for i, n in zip(U, counts) if n]
+        if not items: continue
+        for known in ([], [(11, 30)], [(10, 30), (14, 33)]):
+            for delta, mnc in ((1, 2), (2, 2), (2, 3), (3, 11)):
+                if quick and rnd.random() < .8: continue
+                it = list(items); rnd.shuffle(it)                      # dict insertion order must not matter
+                one(known, delta, mnc, it, "exhaustive-five-introns")
+    # random: 2-9 introns on a coarse grid with jitter, counts in {1,2,3,10,100}, equal counts frequent (tie rule: larger intron first)
+    for _ in range(1500 if quick else 15000):
+        n = rnd.randint(2, 9); base = [(100 * rnd.randint(1, 3), 100 * rnd.randint(5, 7)) for _k in range(3)]
+        ints = set()
+        while len(ints) < n:
+            b = rnd.choice(base); ints.add((b[0] + rnd.randint(0, 7), b[1] + rnd.randint(0, 7)))
+        items = [(i, rnd.choice([1, 1, 2, 2, 3, 10, 100])) for i in ints]; rnd.shuffle(items)
+        known = [i for i in ints if rnd.random() < .2]
+        one(known, rnd.choice([0, 1, 2, 4, 6]), rnd.choice([1, 2, 3, 11]), items, "random")
+    # through collect_introns: fake read assignments (multimappers and reads without introns are skipped, repeated introns count twice)
+    for _ in range(300 if quick else 3000):
+        pool = [(100 + rnd.randint(0, 6), 200 + rnd.randint(0, 6)) for _k in range(3)] + [(300 + rnd.randint(0, 4), 400 + rnd.randint(0, 4)) for _k in range(2)]
+        reads = []
+        for k in range(rnd.randint(1, 12)):
+            ins = [rnd.choice(pool[:3])] * rnd.choice([0, 1, 1, 1, 2]) + [rnd.choice(pool[3:])] * rnd.choice([0, 1, 1])
+            reads.append(types.SimpleNamespace(corrected_introns=ins, multimapper=rnd.random() < .15))
+        one([i for i in pool if rnd.random() < .2], rnd.choice([0, 2, 4, 6]), rnd.choice([1, 2, 3]), None, "reads", reads=reads)
+    pre = PRE_CL + """Definition T := (list iv * Z * Z * option (list read) * list (iv * Z) * (list (iv * Z) * list (iv * iv) * list iv * list op))%type.
+Definition check (c : T) : bool := let '(known, delta, mnc, reads, all, (V, M, D, ops)) := c in
+  match reads with Some r => list_eqb_ ivz_eqb (collect_counts r) all | None => true end &&
+  let '(st, os) := cluster known delta mnc all in cstate_eqb st V M D && list_eqb_ op_eqb os ops.
+(* specification of the implementation's result: a substituted intron is unannotated and its substitute is a collected intron within delta on both
+   ends, of at least its count, and a vertex; a discarded intron is unannotated, below min_count and has no similar intron; annotated introns are
+   vertices; vertices, substituted and discarded introns partition the collected introns; no read is lost from the counts *)
+Definition cnt_of (all : list (iv * Z)) (i : iv) : Z := match find (fun e => iv_eqb (fst e) i) all with Some e => snd e | None => 0 end.
+Definition sumz (l : list Z) : Z := fold_left Z.add l 0.
+Definition prop (c : T) : bool := let '(known, delta, mnc, reads, all, (V, M, D, ops)) := c in
+  let ks := map fst all in let vs := map fst V in
+  forallb (fun e => negb (mem (fst e) known) && similar delta (fst e) (snd e) && mem (snd e) ks && mem (snd e) vs && (cnt_of all (fst e) <=? cnt_of all (snd e))) M &&
+  forallb (fun i => negb (mem i known) && (cnt_of all i <? mnc) && negb (has_similar delta all i)) D &&
+  forallb (fun i => negb (mem i ks) || mem i vs) known &&
+  same_set ks (vs ++ map fst M ++ D) && (Z.of_nat (length ks) =? Z.of_nat (length vs + length M + length D)) &&
+  (sumz (map snd V) + sumz (map (cnt_of all) D) =? sumz (map snd all)).
+"""
+    ctx.rule("cluster: IntronCollector.collect_introns + cluster_introns (REAL, under the recorder) against the executable model GraphCluster.cluster: exhaustive over five introns (three mutually close, one close to "
+             "one of them, one far) x every count vector over {absent,1,2,10,100} x 3 known sets x 4 (delta, min_count) settings with shuffled dict insertion order (quick: a 20% sample); random sets of 2-9 "
+             "jittered introns with frequent count ties; fake read assignments through collect_introns (multimappers, reads without introns, introns repeated in a read); compared exactly: dict order of "
+             "collect_introns, clustered_introns with counts in insertion order, correction map, discarded introns and the logged operation sequence; non-trivial = a substitution or a discard happens")
+    m, v = ctx.corr("cluster", pre, cases, shard=400, ctype="T", nontrivial=lambda o: o["nontrivial"])
+    ctx.corr_report("cluster", m, v)
+
+
+# ------------------------------------------------------------------ collapse_vertex_set: which vertex of a set is collapsed into which
+def float_ratio_is_exact(ratio, num, den, upto):
+    """count < n * ratio (float) agrees with count * den < n * num for all n <= upto and the counts next to the boundary"""
+    for n in range(1, upto + 1):
+        f = n * ratio; b = n * num // den
+        for c in (b - 1, b, b + 1):
+            if (c < f) != (c * den < n * num): return (n, c)
+    return None
+
+def run_cvs_unit(ctx, quick):
+    import c04_wrapper as W, fractions
+    from src import intron_graph as ig
+    W.install_graph()
+    rnd = section_rnd(ctx, "cvs")
+    for ratio in (0.5, 0.3):
+        fr = fractions.Fraction(repr(ratio)); bad = float_ratio_is_exact(ratio, fr.numerator, fr.denominator, 20000 if quick else 200000)
+        if bad: ctx.broken("assumption:float-ratio", "count < n * %r differs from the exact rational comparison at n=%d count=%d" % (ratio, bad[0], bad[1]))
+    cases = []
+    def one(dist, ratio, items, origin):
+        g = ig.IntronGraph.__new__(ig.IntronGraph)
+        object.__setattr__(g, "params", types.SimpleNamespace(graph_clustering_distance=dist, graph_clustering_ratio=ratio))
+        cl = collections.defaultdict(int); cl.update(dict(items))
+        object.__setattr__(g, "intron_collector", types.SimpleNamespace(clustered_introns=cl, _c04=W.Rec()))
+        res = g.collapse_vertex_set(set(i for i, _ in items))
+        fr = fractions.Fraction(repr(ratio)); vs = [i for i, _ in items]
+        term = "((mkGP %s %s %s 0 []), %s, %s, %s)" % (cz(dist), cz(fr.numerator), cz(fr.denominator), ccounts(items), civs_(vs), cpairs(list(res.items())))
+        cases.append((term, dict(origin=origin, graph_clustering_distance=dist, graph_clustering_ratio=ratio, vertices_with_counts=items, impl=list(res.items()), nontrivial=bool(res))))
+    U = [(100, 200), (103, 200), (100, 206), (108, 209), (130, 200)]
+    for counts in itertools.product((0, 1, 2, 10, 100), repeat=len(U)):
+        items = [(i, n) for i, n in zip(U, counts) if n]
+        if len(items) < 2: continue
+        for dist in (5, 10, 20):
+            for ratio in (0.5, 0.3):
+                if quick and rnd.random() < .75: continue
+                it = list(items); rnd.shuffle(it)
+                one(dist, ratio, it, "exhaustive-five-vertices")
+    for _ in range(1000 if quick else 10000):
+        n = rnd.randint(2, 8); ints = set()
+        while len(ints) < n: ints.add((100 + rnd.randint(0, 25), 300 + rnd.randint(0, 25)))
+        one(rnd.choice([5, 10, 20]), rnd.choice([0.5, 0.3]), [(i, rnd.choice([1, 1, 2, 3, 4, 6, 10, 20, 100])) for i in ints], "random")
+    pre = "From IQ Require Import Exons Graph GraphCluster GraphPasses.\nOpen Scope Z_scope.\n" + """Definition T := (gparams * list (iv * Z) * list iv * list (iv * iv))%type.
+Definition check (c : T) : bool := let '(P, C, vs, res) := c in pairs_eqb res (collapse_vertex_set P C vs).
+(* specification of the implementation's answer: a collapsed vertex and its target belong to the set, the target is kept (no chains), it is closer
+   than the clustering distance at both ends and the collapsed vertex has less than ratio times its count *)
+Definition prop (c : T) : bool := let '(P, C, vs, res) := c in
+  forallb (fun e => mem (fst e) vs && mem (snd e) vs && negb (iv_eqb (fst e) (snd e)) && negb (mem (snd e) (map fst res)) &&
+                    close_enough P C (cnt_lookup C (fst e)) (fst e) (snd e)) res.
+"""
+    ctx.rule("collapse_vertex_set (REAL method on a bare IntronGraph object) against GraphPasses.collapse_vertex_set: exhaustive over five vertices (three mutually close, one further, one far) x every count "
+             "vector over {absent,1,2,10,100} with >= 2 vertices x distance {5,10,20} x ratio {0.5,0.3} (quick: a 25% sample), random sets of 2-8 close vertices; the substitute_dict is compared in insertion order; "
+             "the float test `count < n * ratio` is shown equal to the exact rational test for n <= 20000 (thorough 200000) by enumeration; non-trivial = something is collapsed")
+    m, v = ctx.corr("collapse_vertex_set", pre, cases, shard=400, ctype="T", nontrivial=lambda o: o["nontrivial"])
+    ctx.corr_report("collapse_vertex_set", m, v)
 
 
 # ------------------------------------------------------------------ the collector's mutators driven directly: substitution chains, discards, simplify_correction_map
@@ -813,7 +987,7 @@ def run(ctx, only=None):
     logging.getLogger('IsoQuant').setLevel(logging.CRITICAL)
     ctx.prepare("C04.v")
     ctx.exhaustive = False
-    for f in (run_strand_unit, run_decide_unit, run_similar_unit, run_collector_unit, run_graph_unit, run_pipeline):
+    for f in (run_strand_unit, run_decide_unit, run_similar_unit, run_cluster_unit, run_cvs_unit, run_collector_unit, run_graph_unit, run_pipeline):
         if only and f not in only: continue
         t0 = time.time(); f(ctx, quick); ctx.notes.append("%s: %.0f s" % (f.__name__, time.time() - t0))
     ctx.rule("pipeline: isoquant.py under harness/c04_wrapper.py (logging containers + bracketed mutators, behaviour unchanged) on the bundled chr9 data with each of the 8 --model_construction_strategy presets, "
@@ -842,6 +1016,6 @@ def replay(ctx, rep):
     name = r.get("correspondence") or ""
     if not name and rep.get("no_longer_checks"):
         name = next((x.split("correspondence:", 1)[1] for x in rep["no_longer_checks"] if x.startswith("correspondence:")), "")
-    sec = {"strand_functions": run_strand_unit, "decide": run_decide_unit, "detect_similar": run_similar_unit, "collector": run_collector_unit, "graph_system": run_graph_unit}.get(name)
+    sec = {"cluster": run_cluster_unit, "collapse_vertex_set": run_cvs_unit, "strand_functions": run_strand_unit, "decide": run_decide_unit, "detect_similar": run_similar_unit, "collector": run_collector_unit, "graph_system": run_graph_unit}.get(name)
     if sec is None and name.startswith("pipeline"): sec = run_pipeline
     return run(ctx, only=[sec] if sec else None)
